@@ -39,6 +39,16 @@ class BoundExceeded(Exception):
     pass
 
 
+class HistoryDependence(Exception):
+    """The analysed call reads a mutable container that lives on a retained object (rule / parser state created
+    before the call and written by calls): the value read was put there by an earlier call."""
+
+    def __init__(self, site: str, what: str):
+        super().__init__(f"{what} at {site}")
+        self.site = site
+        self.what = what
+
+
 class Halt(Exception):
     """Raised when an exploration only wants the first `halt_depth` decisions of a path."""
 
@@ -124,6 +134,8 @@ class Lst:
 class Dct:
     def __init__(self, items=None):
         self.items = dict(items or {})
+        self.retained = False
+        self.born_empty = not self.items
 
 
 class Rec:
@@ -994,7 +1006,10 @@ class Interp:
                 return self.char_test(sx.items[0], lambda ch: ch in container, f"ch{sx.items[0].cid} in {container!r}")
             raise Unsupported("substring test on symbolic strings")
         if isinstance(container, Dct):
-            return any(self._equal(x, k) for k in container.items)
+            if any(self._equal(x, k) for k in container.items):
+                return True
+            self._stale_read(container, x)
+            return False
         if isinstance(container, Opaque) or isinstance(x, Opaque):
             return self.atom(f"in:{x!r}:{container!r}")
         raise Unsupported(f"membership {x!r} in {container!r} at {self.site}")
@@ -2068,7 +2083,15 @@ class Interp:
         d = Dct()
         for k, v in zip(e.keys, e.values):
             d.items[self.eval(k, env)] = self.eval(v, env)
+        d.retained = self.retained_mode > 0
+        d.born_empty = not d.items
         return d
+
+    def _stale_read(self, d: "Dct", key) -> None:
+        """A miss on a cache that outlives the call: an earlier call may have left an entry for this key."""
+        if d.retained and d.born_empty and self.config.get("model_history", True):
+            if self.atom(f"entry-left-by-an-earlier-call({self.site.split(':L')[0]})"):
+                raise HistoryDependence(self.site, f"lookup of {key!r} in a container kept on a long-lived object")
 
     def e_JoinedStr(self, e, env):
         out: Any = ""
@@ -2114,6 +2137,7 @@ class Interp:
             kt = self.to_term(k)
             if kt is not None and any(kt == m for m in getattr(o, "members", [])):
                 raise PathInfeasible()
+            self._stale_read(o, k)
             raise AbsRaise("KeyError", self.site, repr(k))
         if isinstance(o, FactorDict):
             return self._factor_lookup(o, k)
@@ -2260,6 +2284,7 @@ def _call_builtin_method(self: Interp, info, args, kwargs):
             for kk, vv in obj.items.items():
                 if self._equal(kk, rest[0]):
                     return vv
+            self._stale_read(obj, rest[0])
             return rest[1] if len(rest) > 1 else None
         if n == "dict_keys":
             return Lst(list(obj.items.keys()))
@@ -2385,6 +2410,8 @@ def explore(prog: Program, body: Callable[[Interp], Any], config: Optional[dict]
             results.append(PathResult(it, "raise", exc=r))
         except BoundExceeded as b:
             results.append(PathResult(it, "bound", note=str(b)))
+        except HistoryDependence as h:
+            results.append(PathResult(it, "history", note=str(h)))
         except PathInfeasible:
             pass
         except RecursionError:
